@@ -5,6 +5,7 @@
 (* arbitrary batch splits under a chosen worker identity, and storages are (re)opened from a          *)
 (* snapshot plus tail or from scratch.  Events (o = object, w = worker identity of the object):       *)
 (*   issue : a storage call through object o -> one log record; reply, cursor k and view are logged   *)
+(*   append: a record written through a storage object shared by threads (its place in the log only)  *)
 (*   sync  : a getter on object o (reads everything)                                                  *)
 (*   apply : apply_logs on a raw replay object with the next n unread records                         *)
 (*   open  : a new object built from the backend (snapshot + tail, or full replay)                    *)
@@ -25,7 +26,7 @@ SetCur(o, k) == cur' = [x \in DOMAIN cur \cup {o} |-> IF x = o THEN k ELSE cur[x
 Init == TraceInitBase /\ log = <<>> /\ cur = <<>>
 
 Undefined ==      \* a call outside the defined contract ends the judged part of the trace (never a verdict)
-  /\ HasEv /\ Ev.e = "issue" /\ ~OpDefined(Fold(log, Len(log)), Ev.op)
+  /\ HasEv /\ Ev.e \in {"issue", "append"} /\ ~OpDefined(Fold(log, Len(log)), Ev.op)
   /\ PrintT(<<"UNDEF", Trace.tid, l>>)
   /\ l' = Len(Events) + 1 /\ UNCHANGED <<tix, log, cur>>
 
@@ -34,6 +35,10 @@ Issue ==
   /\ log' = Append(log, [w |-> Ev.w, op |-> Ev.op])
   /\ RetEq(Ev.ret, ApplyOp(Fold(log, Len(log)), Ev.op).ret)     \* the issuer gets the contract's reply / error class
   /\ Ev.k = Len(log') /\ ViewOK(Ev.k) /\ SetCur(Ev.o, Ev.k)
+
+AppendRec ==  \* a record written by a thread of a shared storage object: only its place in the log is known
+  /\ Is("append") /\ OpDefined(Fold(log, Len(log)), Ev.op)
+  /\ log' = Append(log, [w |-> Ev.w, op |-> Ev.op]) /\ UNCHANGED cur
 
 Sync ==
   /\ Is("sync") /\ UNCHANGED log
@@ -52,7 +57,7 @@ Open ==
   /\ Is("open") /\ UNCHANGED log
   /\ Ev.err = "none" /\ Ev.k = Len(log) /\ ViewOK(Ev.k) /\ SetCur(Ev.o, Ev.k)
 
-Next == Undefined \/ Issue \/ Sync \/ Apply \/ Open
+Next == Undefined \/ Issue \/ AppendRec \/ Sync \/ Apply \/ Open
 Spec == Init /\ [][Next]_vars
 Inv == StateInv(Fold(log, Len(log)))
 =================================================================================
